@@ -61,6 +61,16 @@ def run(ctx, model_ok):
             evs += [[threads[0][0], c['PERF_Event'], 1, [1, 0, 0, 0]], [threads[0][0], c['PERF_THD_Data'], 0, [77, 0x999, 0, 1]],
                     [threads[0][0], c['PERF_Event'], 2, [0, 0, 0, 0]], [0x999, c['BSC_getpid'], 1, [0x27225c0a09, 0x7f80ff, 0, 0]],
                     [0x999, c['BSC_getpid'], 2, [0, 77, 0, 0]]]
+            # a sample whose thread data declares thread 0x99a for pid 78; before the sample ends a new-thread record re-declares
+            # it for pid 79: the sample, decoded at its END, declares it again (the line of 0x99a names pid 78); and a sample
+            # whose thread-data record carries the START qualifier (it is never fed alone): the sample still declares its thread
+            t0 = threads[0][0]
+            evs += [[t0, c['PERF_Event'], 1, [1, 0, 0, 0]], [t0, c['PERF_THD_Data'], 0, [78, 0x99a, 0, 1]],
+                    [t0, c['TRACE_DATA_NEWTHREAD'], 0, [0x99a, 79, 0, 0]], [t0, c['PERF_Event'], 2, [0, 0, 0, 0]],
+                    [0x99a, c['BSC_getpid'], 1, [0, 0, 0, 0]], [0x99a, c['BSC_getpid'], 2, [0, 78, 0, 0]],
+                    [t0, c['PERF_Event'], 1, [1, 0, 0, 0]], [t0, c['PERF_THD_Data'], 1, [81, 0x99b, 0, 1]],
+                    [t0, c['PERF_Event'], 2, [0, 0, 0, 0]],
+                    [0x99b, c['BSC_getpid'], 1, [0, 0, 0, 0]], [0x99b, c['BSC_getpid'], 2, [0, 81, 0, 0]]]
         f = sg.v2(threads, evs).hex()
         for bits in (configs if s < 2 or not ctx.quick() else rng.sample(configs, 6) + [tuple([True] * 6)]):
             cfg = dict(zip(SW, bits), color=False)
